@@ -471,7 +471,10 @@ func newStreamReaderWithConvert[T any](origin iStreamReader, convert func(any) (
 //	fmt.Println(s) // Output: val_1
 func StreamReaderWithConvert[T, D any](sr *StreamReader[T], convert func(T) (D, error)) *StreamReader[D] {
 	c := func(a any) (D, error) {
-		return convert(a.(T)) // nolint: byted_interface_check_golintx
+		// a is an item of sr boxed by recvAny: always a T, except that a nil interface item (T an interface type)
+		// has lost its type in the box; the zero T is that item.
+		t, _ := a.(T)
+		return convert(t)
 	}
 
 	return newStreamReaderWithConvert(sr, c)
